@@ -300,6 +300,32 @@ def scen_import(fn, fmt, isz, width):
                         R.fail("import:%s:accepted_mismatching_buffer" % fn, L=L, typecode=tc, itemsize=src.itemsize, shape=sname, result_len=len(res))
                 elif not ok:
                     R.fail("import:%s:wrong_elements" % fn, L=L, typecode=tc, shape=sname, got=str(flat)[:200], want=str(list(src))[:200])
+        # non-contiguous sources of the right element type (every other element / row, reversed): refused, or copied
+        # element by element as the buffer describes them - never read as if contiguous
+        if L >= 3:
+            tc = fmt
+            src = array.array(tc, [((k * 3 + 1) % 100) for k in range(L * width)])
+            base = memoryview(src) if width == 1 else memoryview(src).cast("B").cast(tc, (L, width))
+            for sname, buf in (("every_other", base[::2]), ("reversed", base[::-1]), ("tail_every_other", base[1::2])):
+                R.ev()
+                R.cls("import_strided_source")
+                R.nontrivial(hash((fn, L, "strided", sname)))
+                want = buf.tolist()
+                wantflat = [x for row in want for x in (row if isinstance(row, list) else [row])]
+                try:
+                    res = F(buf)
+                except Exception:
+                    R.cls("import_strided_source_refused")
+                    continue
+                R.cls("import_strided_source_accepted")
+                try:
+                    got = [comps(res[i], width) for i in range(len(res))]
+                    flat = [x for g in got for x in g]
+                    ok = [float(x) for x in flat] == [float(x) for x in wantflat]
+                except Exception as e:
+                    ok, flat = False, repr(e)
+                if not ok:
+                    R.fail("import:%s:strided_source_copied_as_contiguous" % fn, L=L, view=sname, strides=buf.strides, got=str(flat)[:200], want=str(wantflat)[:200])
         # raw byte sources (format 'B'): never the right element type for these constructors
         for nbytes in (0, 1, isz * width, isz * width * 3 + 1):
             for nm, buf in (("bytes", bytes(range(nbytes % 256)) * 1 if nbytes < 256 else bytes(nbytes)), ("bytearray", bytearray(nbytes))):
